@@ -247,6 +247,14 @@ func registerIntrinsics(M map[string]Model) {
 		m.poolPolicy = m.mustGoString(a[0], "pool policy")
 		return nil
 	})
+	I("Param", func(m *Machine, fr *Frame, a []Value) Value {
+		name := m.mustGoString(a[0], "param name")
+		v, ok := m.cfg.Params[name]
+		if !ok {
+			m.unsupported("job parameter %q not set", name)
+		}
+		return m.ctx.Const(uint64(int64(v)), 64)
+	})
 	I("Phase", func(m *Machine, fr *Frame, a []Value) Value {
 		m.phase = m.mustGoString(a[0], "phase")
 		return nil
